@@ -750,6 +750,15 @@ impl AbstractSyntaxTree for Function {
                 .map(|aliased| scope.resolve(aliased).with_span(from))
                 .transpose()?
                 .unwrap_or_else(ResolvedType::unit);
+            for (index, param) in params.iter().enumerate() {
+                if params[..index]
+                    .iter()
+                    .any(|previous| previous.identifier() == param.identifier())
+                {
+                    return Err(Error::VariableReuseInPattern(param.identifier().clone()))
+                        .with_span(from);
+                }
+            }
             scope.push_scope();
             for param in params.iter() {
                 scope.insert_variable(param.identifier().clone(), param.ty().clone());
